@@ -4,12 +4,14 @@ use crate::worker::{JobOutput, WorkerCtx};
 use serde_json::{json, Value};
 
 pub mod disk;
+pub mod env;
 
 pub fn worker_init(_ctx: &mut WorkerCtx) {}
 
 pub fn run_job(ctx: &mut WorkerCtx, job: &Value) -> JobOutput {
     match job["t"].as_str().unwrap_or("") {
         "disk" => disk::run(ctx, job),
+        "env" => env::run(ctx, job),
         "canary_abort" => {
             // selftest only: a worker death must be attributed to the job in flight
             std::process::abort();
